@@ -1,9 +1,8 @@
 CONSTANTS
   Dev = {}
   MaxReq = 2
-  RT = 1
-  DefRT = 2
-  IdleCfg = 1
+  TickMs = 10000
+  StConfs <- St_xfr
   RqCap = 8
   ChanCap = 8
   MaxFrames = 3
